@@ -340,3 +340,58 @@ def check_before_return(self, index):
     if index.all():
         return self.copy()
     return self.take(index)
+
+
+def aggregate_length(var, site_id):
+    num_alleles = var.num_alleles
+    allele_string = "".join(var.alleles[:num_alleles])
+    if len(allele_string) != num_alleles:
+        raise TypeError(f"Multi-letter allele or deletion detected at site {site_id}")
+    return allele_string.encode("ascii")
+
+
+def each_length(var, site_id):
+    if not all(len(a) == 1 for a in var.alleles[: var.num_alleles]):
+        raise TypeError(f"Multi-letter allele or deletion detected at site {site_id}")
+    return "".join(var.alleles[: var.num_alleles]).encode("ascii")
+
+
+class Stat:
+    def specified_path(self, windows=None, num_threads=0, mode="site"):
+        windows_specified = windows is not None
+        windows = self.parse_windows(windows)
+        if windows_specified and len(windows) > 2:
+            D = self._by_window(windows, num_threads, mode=mode)
+        else:
+            D = self._by_tree(num_threads, mode=mode)
+        return D
+
+    def specified_exact(self, windows=None, num_threads=0, mode="site"):
+        windows_specified = windows is not None
+        windows = self.parse_windows(windows)
+        if windows_specified:
+            D = self._by_window(windows, num_threads, mode=mode)
+        else:
+            D = self._by_tree(num_threads, mode=mode)
+        return D
+
+
+def subtree_root(tree, root, labels, NULL=-1):
+    out = {}
+    for node in tree.nodes(root, order="postorder"):
+        s = labels.get(node, "")
+        parent = tree.parent(node)
+        if parent != NULL:
+            s += ":%f" % tree.branch_length(node)
+        out[node] = s
+    return out
+
+
+def subtree_root_compared(tree, root, labels):
+    out = {}
+    for node in tree.nodes(root, order="postorder"):
+        s = labels.get(node, "")
+        if node != root:
+            s += ":%f" % tree.branch_length(node)
+        out[node] = s
+    return out
